@@ -371,6 +371,24 @@ func objFnCheck(o, o2 val.Value) (string, int) {
 	} else if !ok || !multisetEqual(normPairs(gotE), normPairs(pairs)) {
 		return fmt.Sprintf("$each visited %v, the members are %v", gotE, pairs), evals
 	}
+	// a callback without a result for some members contributes nothing for them
+	// ($each and, through it, $merge of the per-member objects)
+	var numKeys []val.Value
+	numObj := map[string]val.Value{}
+	for _, k := range o.Keys() {
+		if o.O[k].K == val.Num {
+			numKeys = append(numKeys, val.S(k))
+			numObj[k] = o.O[k]
+		}
+	}
+	if gotN, ok := asList(run(`$each(o, function($v, $k){$type($v) = "number" ? $k})`)); !ok || !multisetEqual(gotN, numKeys) {
+		return fmt.Sprintf("$each with a callback that has a result for the number members only gives %v, their names are %v", gotN, numKeys), evals
+	}
+	if len(numKeys) > 0 {
+		if r := run(`$merge($each(o, function($v, $k){$type($v) = "number" ? {$k: $v}}))`); !(r.Kind == port.KValue && val.Equal(r.Val, val.O(numObj))) {
+			return fmt.Sprintf("$merge of the per-member objects of the number members is %s, want %s", r.String(), val.Canon(val.O(numObj))), evals
+		}
+	}
 	// every member is represented by its function result, whatever that result
 	// is (0, "" and false included): results of the scalar members
 	var scalars []val.Value
